@@ -359,5 +359,31 @@ theorem isIdentity_of_identity (A : Mat K) (h : A.storage = .identity) :
     A.isIdentity = some true ∧ ∀ i j, entry A i j = if i = j then 1 else 0 := by
   unfold isIdentity entry; rw [h]; exact ⟨rfl, fun _ _ => rfl⟩
 
+/-- `is_identity` on Full / Banded storage: it never panics on a well-formed matrix and answers `true` exactly when
+    every entry of the denoted matrix is that of the identity (every n, every bandwidth pair) -/
+theorem isIdentity_iff_dense {A : Mat K} (h : WF A) (hst : A.storage ≠ .identity) :
+    ∃ b, A.isIdentity = some b ∧
+      (b = true ↔ ∀ i j, i < A.n → j < A.n → entry A i j = if i = j then 1 else 0) := by
+  refine ⟨_, by rw [isIdentity_unfold A hst, h.1, isIdStep_outer h true _ (fun i hi => List.mem_range.mp hi)], ?_⟩
+  simp only [Bool.true_and, List.all_eq_true, List.mem_range, cellOk]
+  constructor
+  · intro hall i j hi hj
+    have := hall i hi j hj
+    by_cases hij : i = j
+    · simpa [hij] using this
+    · simpa [hij] using this
+  · intro hall i hi j hj
+    have := hall i j hi hj
+    by_cases hij : i = j
+    · simpa [hij] using this
+    · simpa [hij] using this
+
+noncomputable local instance : SqrtPow ℚ := ⟨id, fun a _ => a⟩
+
+/-- non-vacuity: a banded 3×3 matrix with a wide lower band and one sub-diagonal entry is not the identity -/
+example : ∃ A : Mat ℚ, WF A ∧ A.storage = .banded 2 0 ∧ A.isIdentity = some false := by
+  refine ⟨⟨3, 3, #[1, 1, 1, 0, 0, 0, 5, 0, 0], .banded 2 0⟩, by simp [WF], rfl, ?_⟩
+  decide +kernel
+
 end
 end Mat
